@@ -1,6 +1,6 @@
 (* Properties/C05.v — timers: never early (arithmetic), at most once, never after being cleared. *)
 From GN Require Import Common.Base Common.Int64 Model.Loop Model.LoopSrc Model.LoopTime Gen.LoopSkeleton
-  Proofs.LoopFrame Proofs.LoopCtl Proofs.LoopTimers Proofs.LoopInv Proofs.LoopProps Proofs.LoopTime.
+  Proofs.LoopFrame Proofs.LoopCtl Proofs.LoopTimers Proofs.LoopInv Proofs.LoopProps Proofs.LoopTime Cases.LoopCheck Proofs.LoopReplay.
 Open Scope Z_scope.
 
 Theorem C05_one_shot_at_most_once : forall k s t, reach k s -> In t (timers s) -> tj_kind t <> TInterval -> (tj_calls t <= 1)%nat.
@@ -55,3 +55,9 @@ Print Assumptions C05_source_tie.
 Theorem C05_reach_nonvacuous : forall k, reach k init_after_setup.
 Proof. exact setup_reach. Qed.
 Print Assumptions C05_reach_nonvacuous.
+
+(* a controlled execution of the real loop whose log replays without difference ends in a reachable state of the model:
+   the theorems above apply to the executions the harness observes *)
+Theorem C05_checker_sound : forall k l s m, replay k init_after_setup mon0 l 0 = (s, m) -> m_diff m = None -> reach k s.
+Proof. exact replayed_state_reachable. Qed.
+Print Assumptions C05_checker_sound.
